@@ -359,7 +359,7 @@ func c16RefCfg(base *c16Cfg, ratesOff bool, nWS, nSess int) *c16Cfg {
 
 func (x *c16Refuse) probe(p *c16RProbe) {
 	e := x.h.rn.e
-	if x.tainted != "" {
+	if x.tainted != "" || !x.srv.Alive() { // a server that is gone: its port may already belong to another server
 		return
 	}
 	tk := x.se
@@ -396,7 +396,7 @@ func (x *c16Refuse) validDone() {
 }
 
 func (x *c16Refuse) create(s int) {
-	if x.tainted != "" {
+	if x.tainted != "" || !x.srv.Alive() {
 		x.skipped++
 		return
 	}
@@ -412,7 +412,7 @@ func (x *c16Refuse) create(s int) {
 
 func (x *c16Refuse) connect(s int, role, step string) *c16Role {
 	hs := x.h.sess[s]
-	if x.tainted != "" || hs == nil || hs.failed || !hs.createOK {
+	if x.tainted != "" || !x.srv.Alive() || hs == nil || hs.failed || !hs.createOK {
 		x.skipped++
 		x.h.trace = append(x.h.trace, step+string(rune('A'+s))+":skipped")
 		return nil
@@ -432,7 +432,7 @@ func (x *c16Refuse) connect(s int, role, step string) *c16Role {
 
 func (x *c16Refuse) exchange(s int) {
 	hs := x.h.sess[s]
-	if x.tainted != "" || hs == nil || hs.failed || hs.host == nil || hs.recv == nil {
+	if x.tainted != "" || !x.srv.Alive() || hs == nil || hs.failed || hs.host == nil || hs.recv == nil {
 		x.skipped++
 		return
 	}
@@ -652,7 +652,9 @@ func (rn *c16Run) runRefused(idx int, base *c16Cfg, ratesOff bool, r *vk.Rng, bu
 	h.obs["trace"] = strings.Join(h.trace, " ")
 	h.obs["server_alive_at_end"] = srv.Alive()
 	if !srv.Alive() {
-		h.violate("server-died", "thruserv exited while the clients were using it", map[string]any{"log_tail": srv.LogTail(1500)})
+		if info, outside := rn.servGone(h.c, h.prefix+"server-died", srv); !outside {
+			h.violate("server-died", "thruserv exited while the clients were using it", map[string]any{"log_tail": srv.LogTail(1500), "exit": info})
+		}
 	}
 	if x.tainted != "" {
 		e.R.Count("refused_history_stopped_probe_admitted")
